@@ -1,10 +1,361 @@
 /-
-  C15 — SLIP39 (placeholder while the proofs are being written; replaced by the real theorems).
--/
-import Buidl.Model.Shamir
-namespace Buidl.Props.C15
-open Buidl Buidl.Shamir
+  C15 — SLIP39 shares: any k recover, fewer never do, corruption is detected.
+  Property theorems only (helpers: Buidl.Proofs.GF256Table, GF256, ShamirLagrange, ShamirSplit, RS1024,
+  ShareCodec, Shamir, ShamirEndToEnd, WordTable).
 
-theorem constants_fingerprint : Gen.gfReduce = 0x11B ∧ Gen.recSecretX = 255 ∧ Gen.recDigestX = 254 := by decide
+  Model: Buidl.Model.Shamir (buidl/shamir.py).  HMAC-SHA256 (`hmac256`), PBKDF2-HMAC-SHA256 (`kdf`) and
+  SHA-256 are arbitrary functions; the code's randomness is the explicit argument `ρ` (and `id`).
+  `GF256` is the 256-element type on which the tables computed as `ShareSet._load` does define a Mathlib
+  `Field` (`Buidl.Shamir.GF256.instField`): addition is XOR, multiplication `exp[(log a + log b) % 255]`.
+
+  What the code supports (and the model mirrors): `generate_shares` makes a single-level split — each share
+  is its own group with a 1-of-1 member.  Observation O15a: for k = 1 `split_secret` returns the single
+  share (0, secret) whatever n (theorem `split_k1`).
+-/
+import Buidl.Proofs.ShamirEndToEnd
+namespace Buidl.Props.C15
+open Buidl Buidl.Mnemonic Buidl.Shamir Polynomial
+
+/-! ## the GF(256) tables define a field -/
+
+/-- the tables computed as `_load` does: 255 / 256 entries, `exp` and `log2` mutually inverse on the non-zero
+    bytes, `exp[i+1]` is `exp[i]` times the generator, `log2[0] = 0` (the "cheat" `interpolate` relies on) -/
+theorem gf256_tables :
+    tables.exp.length = 255 ∧ tables.log.length = 256 ∧ logN 0 = 0 ∧ expN 0 = 1 ∧
+    (∀ i, i < 255 → 0 < expN i ∧ expN i < 256 ∧ logN (expN i) = i ∧ expN ((i + 1) % 255) = gfNext (expN i)) ∧
+    (∀ a, a < 256 → a ≠ 0 → logN a < 255 ∧ expN (logN a) = a) :=
+  tables_facts
+
+/-- the field structure is the code's arithmetic: `+` is XOR, `*` is the log/exp product, `⁻¹` the log/exp
+    inverse (the `Field GF256` instance itself is `Buidl.Shamir.GF256.instField`) -/
+theorem gf256_field_ops (a b : GF256) :
+    (a + b).val = a.val ^^^ b.val ∧
+    (a * b).val = (if a.val = 0 ∨ b.val = 0 then 0 else expN ((logN a.val + logN b.val) % 255)) ∧
+    (a⁻¹).val = (if a.val = 0 then 0 else expN ((255 - logN a.val) % 255)) ∧
+    (a - b = a + b) ∧ (a ≠ 0 → a * a⁻¹ = 1) :=
+  ⟨rfl, rfl, rfl, GF256.sub_eq_add' a b, fun h => mul_inv_cancel₀ h⟩
+
+/-! ## interpolation -/
+
+/-- `ShareSet.interpolate x shares` is Lagrange interpolation over GF256: for byte coordinates, pairwise
+    distinct share indices and `x` outside them, every byte `j` of the result is the Mathlib Lagrange
+    interpolant through the points `(index, byte j of the share)` evaluated at `x` -/
+theorem interpolate_is_lagrange (x : Nat) (sd : ShareData) (wf : WF x sd) (hne : sd ≠ []) (L : Nat)
+    (hL : ∀ sh ∈ sd, sh.2.length = L) :
+    ∃ out, interpolate x sd = some out ∧ out.length = L ∧
+      ∀ j, j < L → toF (col j out)
+        = eval (natF x) (Lagrange.interpolate (nodesF sd).toFinset id (valF sd j)) :=
+  interpolate_eq_lagrange wf hne L hL
+
+/-! ## split / recover -/
+
+/-- **any m ≥ k distinct shares of `split_secret s k n ρ` recover `s`** (and pass the digest check), for
+    every 2 ≤ k ≤ n ≤ 16, every randomness ρ, both secret lengths, every order of the shares -/
+theorem any_k_shares_recover (hmac256 : Bytes → Bytes → Bytes) (hh : ∀ k m, 4 ≤ (hmac256 k m).length)
+    (secret : Bytes) (k n : Nat) (ρ : List Nat) (shares : ShareData) (rest : List Nat) (hk : 2 ≤ k)
+    (h : splitSecret hmac256 secret k n ρ = .ok shares rest)
+    (sub : ShareData) (hsub : ∀ p ∈ sub, p ∈ shares) (hnd : (sub.map (·.1)).Nodup) (hlen : k ≤ sub.length) :
+    recoverSecret hmac256 sub = some secret :=
+  recoverSecret_of_split hmac256 hh secret k n ρ shares rest hk h sub hsub hnd hlen
+
+/-- **end to end**: the share mnemonics of `generate_shares(mnemonic, k, n, passphrase, exponent)` — for every
+    accepted 12- or 24-word mnemonic, 1 ≤ k ≤ n ≤ 16, passphrase, id < 2^15 (`randbits(15)`), exponent < 32,
+    randomness ρ — are such that ANY k or more distinct ones, in any order, make
+    `recover_mnemonic(·, passphrase)` return the canonical BIP39 mnemonic of the same secret
+    (`bytes_to_mnemonic(mnemonic_to_bytes(mnemonic))`; by C14 `roundtrip` this decodes to the original entropy) -/
+theorem generate_then_recover (sha256 : Bytes → Bytes) (hmac256 : Bytes → Bytes → Bytes)
+    (kdf : Bytes → Bytes → Nat → Nat → Bytes) (hh : ∀ k m, 4 ≤ (hmac256 k m).length)
+    (hkdf : ∀ p s c n, (kdf p s c n).length = n) (bip39 slip39 : WordList) (hwl : SLIP39? = some slip39)
+    (mnemonic : PyStr) (k n : Nat) (pass : Bytes) (e id : Nat) (ρ : List Nat) (ms : List PyStr)
+    (hid : id < 2 ^ 15) (he : e < 32)
+    (hgen : generateShares sha256 hmac256 kdf bip39 slip39 mnemonic k n pass e id ρ = .ok ms)
+    (sub : List PyStr) (hsub : ∀ m ∈ sub, m ∈ ms) (hnd : sub.Nodup) (hlen : k ≤ sub.length) :
+    ∃ secret, mnemonicToBytes sha256 bip39 mnemonic = some secret ∧
+      recoverMnemonic sha256 hmac256 kdf bip39 slip39 sub pass
+        = bytesToMnemonic sha256 bip39 secret (secret.length * 8) := by
+  obtain ⟨wl, h, tok⟩ := slip39_table
+  rw [hwl] at h; cases h
+  exact generate_recover sha256 hmac256 kdf hh hkdf bip39 slip39 tok mnemonic k n pass e id ρ ms hid he hgen
+    sub hsub hnd hlen
+
+/-- the shape of a split for k ≥ 2: `n` shares with indices 0 … n−1 (in this order), k ≤ n ≤ 16,
+    secret of 16 or 32 bytes -/
+theorem split_shape (hmac256 : Bytes → Bytes → Bytes) (secret : Bytes) (k n : Nat) (ρ : List Nat)
+    (shares : ShareData) (rest : List Nat) (hk : 2 ≤ k)
+    (h : splitSecret hmac256 secret k n ρ = .ok shares rest) :
+    k ≤ n ∧ n ≤ 16 ∧ (secret.length = 16 ∨ secret.length = 32) ∧ shares.map (·.1) = List.range n := by
+  obtain ⟨h1, h2, h3, _, sd, more, _, hs, _, hm, _, hsh⟩ := splitSecret_unpack hmac256 secret k n ρ shares rest hk h
+  refine ⟨h1, h2, h3, ?_⟩
+  rw [hsh, List.map_append]
+  have e1 : sd.map (·.1) = List.range' 0 (k - 2) := hs
+  have e2 : more.map (·.1) = (List.range n).drop (k - 2) := hm
+  rw [e1, e2, List.range_eq_range', List.drop_range']
+  simp only [Nat.mul_one]
+  rw [List.range'_append_1]
+  congr 1; omega
+
+/-- Observation O15a: with k = 1 the code returns ONE share, `(0, secret)`, whatever `n` is; no randomness is
+    used.  (`recover` then decrypts that share's value directly.) -/
+theorem split_k1 (hmac256 : Bytes → Bytes → Bytes) (secret : Bytes) (n : Nat) (ρ : List Nat)
+    (hn : 1 ≤ n ∧ n ≤ 16) (hl : secret.length = 16 ∨ secret.length = 32) :
+    splitSecret hmac256 secret 1 n ρ = .ok [(0, secret)] ρ := by
+  have hc : Gen.splitLens.contains secret.length = true := by
+    rcases hl with h | h <;> rw [h] <;> decide
+  unfold splitSecret
+  rw [if_neg (by omega), if_neg (by show ¬ n > 16; omega), if_neg (by omega), if_neg (by omega)]
+  simp only [hc, Bool.not_true, Bool.false_eq_true, if_false]
+  rfl
+
+/-- parameters outside 1 ≤ k ≤ n ≤ 16 or a secret of another length are refused -/
+theorem split_rejects (hmac256 : Bytes → Bytes → Bytes) (secret : Bytes) (k n : Nat) (ρ : List Nat)
+    (h : n < 1 ∨ n > 16 ∨ k < 1 ∨ k > n ∨ ¬ (secret.length = 16 ∨ secret.length = 32)) :
+    splitSecret hmac256 secret k n ρ = .reject := by
+  unfold splitSecret
+  by_cases h1 : n < 1
+  · rw [if_pos h1]
+  by_cases h2 : n > Gen.splitMaxN
+  · rw [if_neg h1, if_pos h2]
+  by_cases h3 : k < 1
+  · rw [if_neg h1, if_neg h2, if_pos h3]
+  by_cases h4 : k > n
+  · rw [if_neg h1, if_neg h2, if_neg h3, if_pos h4]
+  rw [if_neg h1, if_neg h2, if_neg h3, if_neg h4]
+  have h5 : ¬ (secret.length = 16 ∨ secret.length = 32) := by
+    rcases h with h | h | h | h | h
+    · exact absurd h h1
+    · exact absurd h h2
+    · exact absurd h h3
+    · exact absurd h h4
+    · exact h
+  have hc : Gen.splitLens.contains secret.length = false := by
+    simp only [Gen.splitLens, List.contains_eq_mem, List.mem_cons, List.not_mem_nil, or_false,
+      decide_eq_false_iff_not]
+    exact h5
+  simp only [hc, Bool.not_false, if_true]
+
+/-! ## too few shares, mixed shares -/
+
+/-- fewer shares than the group threshold k ≥ 2 they carry: `ShareSet.recover` raises -/
+theorem fewer_than_k_rejected (hmac256 : Bytes → Bytes → Bytes) (kdf : Bytes → Bytes → Nat → Nat → Bytes)
+    (s0 : Share) (r : List Share) (pass : Bytes) (hk : s0.groupThreshold ≠ 1)
+    (hlen : (s0 :: r).length < s0.groupThreshold) :
+    ShareSet.recover hmac256 kdf (s0 :: r) pass = none :=
+  recover_too_few hmac256 kdf s0 r pass hk hlen
+
+/-- the same for `recover_mnemonic` on share mnemonics -/
+theorem fewer_than_k_mnemonics_rejected (sha256 : Bytes → Bytes) (hmac256 : Bytes → Bytes → Bytes)
+    (kdf : Bytes → Bytes → Nat → Nat → Bytes) (bip39 slip39 : WordList) (ms : List PyStr) (pass : Bytes)
+    (s0 : Share) (r : List Share) (hp : mapM? (Share.parse slip39) ms = some (s0 :: r))
+    (hk : s0.groupThreshold ≠ 1) (hlen : ms.length < s0.groupThreshold) :
+    recoverMnemonic sha256 hmac256 kdf bip39 slip39 ms pass = none :=
+  recoverMnemonic_too_few sha256 hmac256 kdf bip39 slip39 ms pass s0 r hp hk hlen
+
+/-- no shares at all: REJECT -/
+theorem no_shares_rejected (sha256 : Bytes → Bytes) (hmac256 : Bytes → Bytes → Bytes)
+    (kdf : Bytes → Bytes → Nat → Nat → Bytes) (bip39 slip39 : WordList) (pass : Bytes) :
+    recoverMnemonic sha256 hmac256 kdf bip39 slip39 [] pass = none := rfl
+
+/-- shares that differ in id, exponent, threshold, count or length, or repeat a (group, member) index, are
+    refused by `ShareSet.__init__`: anything accepted is consistent -/
+theorem accepted_sets_consistent (shares ss : List Share) (h : ShareSet.new shares = some ss) :
+    ss = shares ∧ shares ≠ [] ∧ (1 < shares.length → Consistent shares) :=
+  new_some shares ss h
+
+theorem mismatching_id_rejected (shares : List Share) (s t : Share) (hs : s ∈ shares) (ht : t ∈ shares)
+    (hne : s.id ≠ t.id) : ShareSet.new shares = none := by
+  cases h : ShareSet.new shares with
+  | none => rfl
+  | some ss =>
+    exfalso
+    obtain ⟨_, _, hc⟩ := new_some _ _ h
+    have hl : 1 < shares.length := by
+      cases shares with
+      | nil => simp at hs
+      | cons a r =>
+        cases r with
+        | nil =>
+          simp only [List.mem_singleton] at hs ht
+          exact absurd (hs.trans ht.symm ▸ rfl) hne
+        | cons b r' => simp
+    exact hne ((hc hl).id s hs t ht)
+
+theorem mismatching_exponent_rejected (shares : List Share) (s t : Share) (hs : s ∈ shares) (ht : t ∈ shares)
+    (hne : s.exponent ≠ t.exponent) : ShareSet.new shares = none := by
+  cases h : ShareSet.new shares with
+  | none => rfl
+  | some ss =>
+    exfalso
+    obtain ⟨_, _, hc⟩ := new_some _ _ h
+    have hl : 1 < shares.length := by
+      cases shares with
+      | nil => simp at hs
+      | cons a r =>
+        cases r with
+        | nil =>
+          simp only [List.mem_singleton] at hs ht
+          exact absurd (hs.trans ht.symm ▸ rfl) hne
+        | cons b r' => simp
+    exact hne ((hc hl).exponent s hs t ht)
+
+theorem mismatching_threshold_rejected (shares : List Share) (s t : Share) (hs : s ∈ shares) (ht : t ∈ shares)
+    (hne : s.groupThreshold ≠ t.groupThreshold ∨ s.groupCount ≠ t.groupCount) : ShareSet.new shares = none := by
+  cases h : ShareSet.new shares with
+  | none => rfl
+  | some ss =>
+    exfalso
+    obtain ⟨_, _, hc⟩ := new_some _ _ h
+    have hl : 1 < shares.length := by
+      cases shares with
+      | nil => simp at hs
+      | cons a r =>
+        cases r with
+        | nil =>
+          simp only [List.mem_singleton] at hs ht
+          subst hs; subst ht
+          rcases hne with h | h <;> exact absurd rfl h
+        | cons b r' => simp
+    rcases hne with h1 | h1
+    · exact h1 ((hc hl).threshold s hs t ht)
+    · exact h1 ((hc hl).count s hs t ht)
+
+theorem mismatching_length_rejected (shares : List Share) (s t : Share) (hs : s ∈ shares) (ht : t ∈ shares)
+    (hne : s.shareBitLength ≠ t.shareBitLength) : ShareSet.new shares = none := by
+  cases h : ShareSet.new shares with
+  | none => rfl
+  | some ss =>
+    exfalso
+    obtain ⟨_, _, hc⟩ := new_some _ _ h
+    have hl : 1 < shares.length := by
+      cases shares with
+      | nil => simp at hs
+      | cons a r =>
+        cases r with
+        | nil =>
+          simp only [List.mem_singleton] at hs ht
+          exact absurd (hs.trans ht.symm ▸ rfl) hne
+        | cons b r' => simp
+    exact hne ((hc hl).length s hs t ht)
+
+/-- the same at the level of `recover_mnemonic` -/
+theorem recover_mnemonic_accepts_only_consistent (sha256 : Bytes → Bytes) (hmac256 : Bytes → Bytes → Bytes)
+    (kdf : Bytes → Bytes → Nat → Nat → Bytes) (bip39 slip39 : WordList) (ms : List PyStr) (pass : Bytes)
+    (m : PyStr) (h : recoverMnemonic sha256 hmac256 kdf bip39 slip39 ms pass = some m) :
+    ∃ shares, mapM? (Share.parse slip39) ms = some shares ∧ shares ≠ [] ∧
+      (1 < shares.length → Consistent shares) :=
+  recoverMnemonic_consistent sha256 hmac256 kdf bip39 slip39 ms pass m h
+
+/-! ## encryption -/
+
+/-- `decrypt (encrypt x) = x` for every round function of the requested output length (Feistel structure),
+    every payload, id, exponent and passphrase on which `encrypt` succeeds -/
+theorem decrypt_encrypt (kdf : Bytes → Bytes → Nat → Nat → Bytes) (hk : ∀ p s c n, (kdf p s c n).length = n)
+    (payload : Bytes) (id exponent : Nat) (pass c : Bytes)
+    (h : encrypt kdf payload id exponent pass = some c) :
+    decrypt kdf c id exponent pass = some payload ∧ c.length = payload.length :=
+  Shamir.decrypt_encrypt kdf hk payload id exponent pass c h
+
+/-- `encrypt` succeeds exactly on non-empty even-length payloads with `id < 2^16` and an iteration count
+    `2500 << e` that fits a C int -/
+theorem encrypt_domain (kdf : Bytes → Bytes → Nat → Nat → Bytes) (payload : Bytes) (id exponent : Nat)
+    (pass : Bytes) :
+    (encrypt kdf payload id exponent pass).isSome ↔
+      payload.length % 2 = 0 ∧ 2 ≤ payload.length ∧ 2500 <<< exponent ≤ 2147483647 ∧ id < 2 ^ 16 := by
+  unfold encrypt crypt
+  by_cases heven : payload.length % 2 = 0
+  · by_cases hbad : payload.length / 2 < 1 ∨ Gen.baseIterations <<< exponent > 2147483647
+    · simp only [heven, bne_self_eq_false, Bool.false_eq_true, if_false, hbad, if_true, Option.isSome_none,
+        Bool.false_eq_true, false_iff]
+      rcases hbad with h | h
+      · omega
+      · intro hh; have : Gen.baseIterations <<< exponent = 2500 <<< exponent := rfl; omega
+    · have hb2 : 2 ≤ payload.length ∧ 2500 <<< exponent ≤ 2147483647 := by
+        have : Gen.baseIterations <<< exponent = 2500 <<< exponent := rfl
+        omega
+      by_cases hid : id < 256 ^ Gen.saltIdWidth
+      · simp only [heven, bne_self_eq_false, Bool.false_eq_true, if_false, hbad, natToBE, hid, if_true,
+          Option.isSome_some, true_iff]
+        exact ⟨trivial, hb2.1, hb2.2, hid⟩
+      · simp only [heven, bne_self_eq_false, Bool.false_eq_true, if_false, hbad, natToBE, hid,
+          Option.isSome_none, Bool.false_eq_true, false_iff]
+        intro hh; exact hid hh.2.2.2
+  · simp [heven]
+
+/-! ## share mnemonics -/
+
+/-- `Share.parse (share.mnemonic()) = share` for every share whose fields are in range
+    (id < 2^15, exponent < 32, indices < 16, 1 ≤ thresholds ≤ counts ≤ 16, length a multiple of 16 and
+    ≥ 128, value < 2^length) -/
+theorem parse_mnemonic_roundtrip (slip39 : WordList) (hwl : SLIP39? = some slip39) (s : Share)
+    (ok : ShareOK s) : ∃ m, Share.mnemonic slip39 s = some m ∧ Share.parse slip39 m = some s := by
+  obtain ⟨wl, h, tok⟩ := slip39_table
+  rw [hwl] at h; cases h
+  exact parse_mnemonic slip39 tok s ok
+
+/-- the SLIP39 table: 1024 lower-case words, every stored key (word, four-letter prefix) unique -/
+theorem slip39_table_facts :
+    ∃ wl, SLIP39? = some wl ∧ wl.words.length = 1024 ∧ KeysUnique wl.words ∧
+      ∀ w ∈ wl.words, IsWord w := by
+  obtain ⟨wl, h, tok⟩ := slip39_table
+  exact ⟨wl, h, tok.hlen, tok.huniq, fun w hw => (lowerWord_isWord w (tok.hlower w hw)).1⟩
+
+/-! ## RS1024 -/
+
+/-- the checksum words of `rs1024_create_checksum` verify -/
+theorem rs1024_create_verifies (cs : Bytes) (data : List Nat) (hd : ∀ v ∈ data, v < 1024) :
+    rs1024Verify cs (data ++ rs1024Create cs data) = true :=
+  verify_create cs data (fun v hv => by have := hd v hv; omega)
+
+/-- any single-word error is detected, at every length and position: if a sequence of word indices verifies,
+    no sequence differing from it in exactly one position does -/
+theorem rs1024_single_error (cs : Bytes) (pre post : List Nat) (a a' : Nat) (ha : a < 1024) (ha' : a' < 1024)
+    (hne : a ≠ a') (hok : rs1024Verify cs (pre ++ a :: post) = true) :
+    rs1024Verify cs (pre ++ a' :: post) = false :=
+  verify_single_error cs pre post a a' (by omega) (by omega) hne hok
+
+/-- at the level of `Share.parse`: replacing one word of a share mnemonic that parses by a word with another
+    table index, or by an unknown word, gives REJECT -/
+theorem share_single_word_error (slip39 : WordList) (hwl : SLIP39? = some slip39) (pre post : List PyStr)
+    (w w' : PyStr) (sh : Share)
+    (h : (lookupAll slip39 (pre ++ w :: post)).bind Share.ofIndices = some sh)
+    (hne : slip39.lookup w' ≠ slip39.lookup w) :
+    (lookupAll slip39 (pre ++ w' :: post)).bind Share.ofIndices = none := by
+  obtain ⟨wl, h', tok⟩ := slip39_table
+  rw [hwl] at h'; cases h'
+  exact parse_single_word_error slip39 (by rw [tok.hlen]; decide) pre post w w' sh h hne
+
+-- UNPROVED: two- and three-word errors are always detected
+--   (∀ idx idx', same length, 1 ≤ number of differing positions ≤ 3, all < 1024 →
+--      rs1024Verify cs idx = true → rs1024Verify cs idx' = false).
+--   This is the minimum-distance-4 property of the Reed–Solomon code over GF(1024); Mathlib has no BCH/RS
+--   distance theory and the finite check (≈ 10^9·len³ syndromes) is outside kernel reach.  Correspondence
+--   only: every run substitutes 2 and 3 words in sampled share mnemonics (harness kinds corrupt2/corrupt3).
+--   Proved part: `rs1024_single_error` (one word, every length).
+
+/-! ## extracted constants the model's literals stand for -/
+
+theorem layout_constants :
+    Gen.shareParseInts = [0, 5, 1, 5, 1, 31, 2, 6, 2, 2, 15, 1, 2, 3, 2, 3, 8, 1, 3, 4, 15, 3, 15, 1, 0, 4, 3,
+      10, 7, 10, 16, 16, 0, 128] ∧
+    Gen.shareMnemonicInts = [5, 4, 4, 1, 4, 1, 4, 4, 1, 10, 10, 4, 10, 10, 1, 1023] ∧
+    Gen.shareInitCmp = [("Lt", 0), ("Gt", 15), ("Lt", 1), ("Lt", 1), ("Gt", 16), ("Lt", 0), ("Gt", 15),
+      ("Lt", 1), ("Gt", 16)] ∧
+    Gen.rsCreateInts = [0, 0, 0, 1, 10, 2, 1023, 3] ∧ Gen.rsInit = 1 ∧ Gen.rsVerifyConst = 1 ∧
+    Gen.setInitCmp = [("Gt", 1), ("NotEq", 1), ("NotEq", 1), ("NotEq", 1), ("NotEq", 1), ("NotEq", 1)] ∧
+    Gen.recoverCmp = [("Eq", 0), ("NotEq", 1), ("Eq", 1), ("Eq", 1)] ∧
+    Gen.splitCmp = [("Lt", 1), ("Gt", 16), ("Lt", 1), ("Eq", 1)] ∧
+    Gen.splitInts = [1, 16, 1, 16, 32, 1, 0, 8, 4, 8, 2, 254, 255, 2] ∧
+    Gen.interpolateInts = [0, 1, 255, 255, 0, 0] ∧ Gen.cryptInts = [2, 2, 2, 2500] ∧
+    Gen.genSharesInts = [0, 8, 128, 256, 15, 0, 1] ∧ Gen.kdfHash = "sha256" ∧
+    Gen.encryptRounds = [0, 1, 2, 3] ∧ Gen.decryptRounds = [3, 2, 1, 0] ∧
+    Gen.recSecretX = Gen.splitSecretX ∧ Gen.recDigestX = Gen.splitDigestX ∧
+    Gen.parseCustomization = Gen.mnemonicCustomization ∧ Gen.gfReduce = 0x11B ∧ rsGenOK = true := by
+  decide
+
+/-! ## non-vacuity -/
+
+example : ∃ wl, SLIP39? = some wl := by
+  obtain ⟨wl, h, _⟩ := slip39_table_facts; exact ⟨wl, h⟩
+
+example : WF 255 [(0, [1, 2]), (1, [3, 4])] := ⟨by decide, by decide, by decide, by decide⟩
 
 end Buidl.Props.C15
